@@ -401,6 +401,7 @@ impl NetcodeClient {
             max_clients: self.max_clients,
             client_index: self.client_index,
             replay_most_recent_sequence: self.replay_protection.verif_most_recent_sequence(),
+            replay_window_digest: self.replay_protection.verif_window_digest(),
         }
     }
 
